@@ -400,4 +400,295 @@ theorem search_within_limits (s : Bytes) (hs : ∀ b ∈ s, b ≠ 0) (hb : ∀ b
       rw [if_neg (by omega)]
       split <;> simp
 
+/-- recursion depth of `count_instructions` / `node_is_anchored` / `compile_context` on a tree -/
+def Node.height : Node → Nat
+  | .cat l r | .alt l r => max l.height r.height + 1
+  | .quant _ _ _ q => q.height + 1
+  | .cap c => c.height + 1
+  | _ => 1
+
+theorem Node.height_le_size : ∀ n : Node, n.height ≤ n.size := by
+  intro n
+  induction n with
+  | cat l r ihl ihr => simp only [Node.height, Node.size]; omega
+  | alt l r ihl ihr => simp only [Node.height, Node.size]; omega
+  | quant a b g q ih => simp only [Node.height, Node.size]; omega
+  | cap c ih => simp only [Node.height, Node.size]; omega
+  | _ => simp [Node.height, Node.size]
+
+theorem Node.size_pos : ∀ n : Node, 1 ≤ n.size := by
+  intro n; cases n <;> simp [Node.size] <;> omega
+
+def sizes (stk : List Node) : Nat := (stk.map Node.size).sum
+
+theorem push_some {cap used u : Nat} (h : push cap used = some u) : u = used + 1 := by
+  unfold push at h; split at h <;> simp at h; omega
+
+theorem concatFold_size (cap : Nat) : ∀ (rest : List Node) (used : Nat) (acc : Node) (u : Nat) (node : Node),
+    concatFold cap used acc rest = some (u, node) → u + acc.size + sizes rest = used + node.size := by
+  intro rest
+  induction rest with
+  | nil => intro used acc u node h; simp [concatFold] at h; simp [sizes, h.1, h.2]
+  | cons l rest ih =>
+    intro used acc u node h
+    simp only [concatFold] at h
+    split at h
+    · simp at h
+    · rename_i u1 h1
+      have := push_some h1
+      have := ih _ _ _ _ h
+      simp only [sizes, List.map_cons, List.sum_cons, Node.size] at this ⊢
+      omega
+
+theorem concat_size (cap used : Nat) (stk : List Node) (u : Nat) (node : Node) (h : concat cap used stk = some (u, node)) :
+    u + sizes stk = used + node.size := by
+  cases stk with
+  | nil =>
+    simp only [concat, Option.map_eq_some_iff] at h
+    obtain ⟨a, ha, h⟩ := h
+    have := push_some ha
+    injection h with h1 h2
+    subst h2
+    simp [sizes, Node.size]; omega
+  | cons top rest =>
+    have := concatFold_size cap rest used top u node h
+    simp only [sizes, List.map_cons, List.sum_cons] at this ⊢
+    omega
+
+theorem isEps_size {n : Node} (h : n.isEps = true) : n.size = 1 := by
+  cases n <;> simp [Node.isEps] at h; rfl
+
+theorem merge_size (cap used : Nat) (left right : Node) (u : Nat) (node : Node) (h : merge cap used left right = some (u, node))
+    (hu : left.size + right.size ≤ used) : u + left.size + right.size = used + node.size := by
+  have := left.size_pos; have := right.size_pos
+  unfold merge at h
+  cases hl : left.isEps <;> cases hr : right.isEps <;> simp only [hl, hr, Bool.and_true, Bool.and_false, Bool.false_eq_true, if_false, if_true] at h
+  · simp only [Option.map_eq_some_iff] at h
+    obtain ⟨a, ha, h⟩ := h
+    have := push_some ha
+    injection h with h1 h2; subst h2; simp only [Node.size]; omega
+  · simp only [Option.map_eq_some_iff] at h
+    obtain ⟨a, ha, h⟩ := h
+    have := push_some ha
+    have := isEps_size hr
+    injection h with h1 h2; subst h2; simp only [Node.size]; omega
+  · simp only [Option.map_eq_some_iff] at h
+    obtain ⟨a, ha, h⟩ := h
+    have := push_some ha
+    have := isEps_size hl
+    injection h with h1 h2; subst h2; simp only [Node.size]; omega
+  · have := isEps_size hl; have := isEps_size hr
+    injection h with h; injection h with h1 h2; subst h2; omega
+
+theorem quantStep_not_atom (pat : Bytes) (sp a : Nat) (b : Option Nat) (nd : Node) (sp' : Nat) : quantStep pat sp a b ≠ .atom nd sp' := by
+  unfold quantStep; split
+  · simp
+  · split <;> simp
+
+/-- the nodes `parse_context` pushes directly are leaves -/
+theorem lexStep_atom_leaf {pat : Bytes} {sp : Nat} {e : Bool} {nd : Node} {sp' : Nat} (h : lexStep pat sp e = .atom nd sp') : nd.size = 1 := by
+  have hq := quantStep_not_atom pat sp
+  rw [lexStep.eq_1] at h
+  cases h0 : pat[sp]? with
+  | none => rw [h0] at h; simp at h
+  | some ch =>
+    rw [h0] at h
+    dsimp only at h
+    have leaf : ∀ {x : Node} {y : Nat}, x.size = 1 → Step.atom x y = Step.atom nd sp' → nd.size = 1 := by
+      intro x y hx hxy; injection hxy with h1 h2; rw [← h1]; exact hx
+    by_cases h1 : ch = 0
+    · rw [if_pos h1] at h; simp at h
+    rw [if_neg h1] at h
+    by_cases h2 : ch = 92
+    · rw [if_pos h2] at h; split at h
+      · simp at h
+      · split at h
+        · simp at h
+        · exact leaf rfl h
+    rw [if_neg h2] at h
+    by_cases h3 : ch = 46
+    · rw [if_pos h3] at h; exact leaf rfl h
+    rw [if_neg h3] at h
+    by_cases h4 : ch = 91
+    · rw [if_pos h4] at h; split at h
+      · simp at h
+      · split at h
+        · exact leaf rfl h
+        all_goals simp at h
+    rw [if_neg h4] at h
+    by_cases h5 : ch = 124
+    · rw [if_pos h5] at h; simp at h
+    rw [if_neg h5] at h
+    by_cases h6 : ch = 63
+    · rw [if_pos h6] at h; split at h
+      · exact leaf rfl h
+      · exact absurd h (hq _ _ _ _)
+    rw [if_neg h6] at h
+    by_cases h7 : ch = 42
+    · rw [if_pos h7] at h; split at h
+      · exact leaf rfl h
+      · exact absurd h (hq _ _ _ _)
+    rw [if_neg h7] at h
+    by_cases h8 : ch = 43
+    · rw [if_pos h8] at h; split at h
+      · exact leaf rfl h
+      · exact absurd h (hq _ _ _ _)
+    rw [if_neg h8] at h
+    by_cases h9 : ch = 123
+    · rw [if_pos h9] at h; split at h
+      · exact leaf rfl h
+      · split at h
+        · exact leaf rfl h
+        all_goals simp at h
+    rw [if_neg h9] at h
+    by_cases h10 : ch = 94
+    · rw [if_pos h10] at h; exact leaf rfl h
+    rw [if_neg h10] at h
+    by_cases h11 : ch = 36
+    · rw [if_pos h11] at h; exact leaf rfl h
+    rw [if_neg h11] at h
+    by_cases h12 : ch = 40
+    · rw [if_pos h12] at h; simp at h
+    rw [if_neg h12] at h
+    by_cases h13 : ch = 41
+    · rw [if_pos h13] at h; simp at h
+    rw [if_neg h13] at h
+    exact leaf rfl h
+
+theorem pctx_size (pat : Bytes) (cap : Nat) : ∀ (fuel depth sp used : Nat) (stk : List Node) (outer sp' used' : Nat) (node : Node),
+    used = outer + sizes stk → pctx pat cap fuel depth sp used stk = .ok (sp', used', node) → used' = outer + node.size := by
+  intro fuel
+  induction fuel with
+  | zero => intro depth sp used stk outer sp' used' node _ h; simp [pctx] at h
+  | succ fuel ih =>
+    intro depth sp used stk outer sp' used' node hu h
+    rw [pctx] at h
+    cases hls : lexStep pat sp stk.isEmpty with
+    | oob => rw [hls] at h; simp at h
+    | ub => rw [hls] at h; simp at h
+    | fail => rw [hls] at h; simp at h
+    | atom nd sp1 =>
+      rw [hls] at h; dsimp only at h
+      split at h
+      · simp at h
+      · rename_i u hp
+        have := push_some hp
+        have hleaf := lexStep_atom_leaf hls
+        exact ih _ _ _ _ outer _ _ _ (by simp only [sizes, List.map_cons, List.sum_cons] at hu ⊢; omega) h
+    | quant a b g sp1 =>
+      rw [hls] at h; dsimp only at h
+      split at h
+      · simp at h
+      · rename_i q rest
+        split at h
+        · simp at h
+        · rename_i u hp
+          have := push_some hp
+          exact ih _ _ _ _ outer _ _ _ (by simp only [sizes, List.map_cons, List.sum_cons, Node.size] at hu ⊢; omega) h
+    | close sp1 =>
+      rw [hls] at h; dsimp only at h
+      split at h
+      · split at h
+        · simp at h
+        · rename_i u nd hc
+          have := concat_size _ _ _ _ _ hc
+          injection h with h; injection h with h1 h; injection h with h2 h3
+          subst h2; subst h3; omega
+      · simp at h
+    | eos sp1 =>
+      rw [hls] at h; dsimp only at h
+      split at h
+      · split at h
+        · simp at h
+        · rename_i u nd hc
+          have := concat_size _ _ _ _ _ hc
+          injection h with h; injection h with h1 h; injection h with h2 h3
+          subst h2; subst h3; omega
+      · simp at h
+    | opn sp1 =>
+      rw [hls] at h; dsimp only at h
+      split at h
+      · rename_i sp2 used2 nd hn
+        have h1 := ih _ _ _ [] used _ _ _ (by simp [sizes]) hn
+        split at h
+        · simp at h
+        · rename_i u hp
+          have := push_some hp
+          exact ih _ _ _ _ outer _ _ _ (by simp only [sizes, List.map_cons, List.sum_cons, Node.size] at hu ⊢; omega) h
+      · rename_i e hne
+        exact absurd h (by intro he; exact hne _ _ _ he)
+    | bar sp1 =>
+      rw [hls] at h; dsimp only at h
+      split at h
+      · simp at h
+      · rename_i u left hc
+        have hcs := concat_size _ _ _ _ _ hc
+        split at h
+        · rename_i sp2 used2 right hn
+          have h1 := ih _ _ _ [] u _ _ _ (by simp [sizes]) hn
+          split at h
+          · simp at h
+          · rename_i u3 nd hm
+            have := merge_size _ _ _ _ _ _ hm (by omega)
+            injection h with h; injection h with h1' h; injection h with h2 h3
+            subst h2; subst h3; omega
+        · rename_i e hne
+          exact absurd h (by intro he; exact hne _ _ _ he)
+
+/-- the accepted tree occupies at most the `2 * strlen` cells of the node buffer; its height (= recursion
+    depth of `count_instructions`, `node_is_anchored`, `compile_context`) is bounded by the same number -/
+theorem parse_size (s : Bytes) (hs : ∀ b ∈ s, b ≠ 0) (hne : s ≠ []) (root : Node) (h : parse (s ++ [0]) = .ok root) :
+    root.size ≤ 2 * s.length ∧ root.height ≤ 2 * s.length := by
+  have hp := patOk_append s hs
+  have hn : 1 ≤ s.length := by cases s with | nil => exact absurd rfl hne | cons a t => simp
+  rw [parse, strlen_cstring s hs] at h; dsimp only at h
+  split at h
+  · simp at h
+  · have hg := pctx_spec hp hn ((s ++ [0]).length + 1) 0 0 0 [] 0 (by omega) (by simp) (by simp) (by omega) (by simp) (by simp)
+    cases hr : pctx (s ++ [0]) (2 * s.length) ((s ++ [0]).length + 1) 0 0 0 [] with
+    | ok v =>
+      obtain ⟨a, b, node⟩ := v
+      rw [hr] at h hg
+      dsimp only at h
+      injection h with h; subst h
+      have hsz := pctx_size _ _ _ _ _ _ _ 0 _ _ _ (by simp [sizes]) hr
+      have := hg.2.2.2.2.1
+      have := node.height_le_size
+      omega
+    | _ => rw [hr] at h; simp at h
+
+theorem digits_step {pat : Bytes} {i acc c : Nat} (h : pat[i]? = some c) (hd : 48 ≤ c ∧ c ≤ 57)
+    (hf : ¬ acc * 10 + (c - 48) > intMax) : digits pat i acc = digits pat (i + 1) (acc * 10 + (c - 48)) := by
+  rw [digits]; split
+  · rename_i h'; rw [h] at h'; simp at h'
+  · rename_i c' h'; rw [h] at h'; injection h' with h'; subst h'; rw [if_pos hd, if_neg hf]
+
+theorem digits_ub_step {pat : Bytes} {i acc c : Nat} (h : pat[i]? = some c) (hd : 48 ≤ c ∧ c ≤ 57)
+    (hf : acc * 10 + (c - 48) > intMax) : digits pat i acc = .ub := by
+  rw [digits]; split
+  · rename_i h'; rw [h] at h'; simp at h'
+  · rename_i c' h'; rw [h] at h'; injection h' with h'; subst h'; rw [if_pos hd, if_pos hf]
+
+/-- the witness of C17-RE-COUNT-PARSE, `a{99999999999}`: the model reaches the `int` overflow of `parse_interval` -/
+theorem parse_count_overflow : parse [97, 123, 57, 57, 57, 57, 57, 57, 57, 57, 57, 57, 57, 125, 0] = .ub := by
+  have hd : digits [97, 123, 57, 57, 57, 57, 57, 57, 57, 57, 57, 57, 57, 125, 0] 2 0 = .ub := by
+    rw [digits_step (c := 57) rfl (by omega) (by simp [intMax]), digits_step (c := 57) rfl (by omega) (by simp [intMax]),
+      digits_step (c := 57) rfl (by omega) (by simp [intMax]), digits_step (c := 57) rfl (by omega) (by simp [intMax]),
+      digits_step (c := 57) rfl (by omega) (by simp [intMax]), digits_step (c := 57) rfl (by omega) (by simp [intMax]),
+      digits_step (c := 57) rfl (by omega) (by simp [intMax]), digits_step (c := 57) rfl (by omega) (by simp [intMax]),
+      digits_step (c := 57) rfl (by omega) (by simp [intMax])]
+    exact digits_ub_step (c := 57) rfl (by omega) (by simp [intMax])
+  have hi : interval [97, 123, 57, 57, 57, 57, 57, 57, 57, 57, 57, 57, 57, 125, 0] 2 = .ub := by
+    rw [interval, hd]
+  have hl : lexStep [97, 123, 57, 57, 57, 57, 57, 57, 57, 57, 57, 57, 57, 125, 0] 1 false = .ub := by
+    rw [lexStep.eq_1]; simp [hi]
+  have hl0 : lexStep [97, 123, 57, 57, 57, 57, 57, 57, 57, 57, 57, 57, 57, 125, 0] 0 true = .atom (.chr 97) 1 := by
+    rw [lexStep.eq_1]; simp
+  simp [parse, strlen, pctx, push, intMax, hl0, hl]
+
+/-- the witness of C17-RE-COUNT-COMPILE, the tree of `((a{60000}){60000})`: `count_instructions` leaves `int` -/
+theorem compile_count_overflow (pat : Bytes) :
+    compile pat (.cap (.quant 60000 (some 60000) true (.cap (.quant 60000 (some 60000) true (.chr 97))))) = .ub := by
+  simp [compile, estimate, Node.count, mulc, addc, intMax]
+
 end IwModel.Re
